@@ -23,6 +23,17 @@ const REPLS: [&str; 13] = ["", "x", "$0", "$1", "$12", "\\$", "$", "\\", "$a", "
 // (the non-ASCII letters share their low byte with i, m, s, x, q and ';')
 const FLAG_LETTERS: [&str; 18] = ["s", "m", "i", "x", "q", ";", "g", "k", "K", "z", " ", "\u{169}", "\u{16d}", "\u{173}", "\u{178}", "\u{171}", "\u{13b}", "\u{e9}"];
 
+/// every replacement string of length <= 3 over C15's alphabet, then C15's long digit runs
+const REPL_ITEMS: u64 = 1 + 8 + 64 + 512 + 10;
+fn repl_item(i: u64) -> String {
+    let n = crate::checks::c15::count(3);
+    if i < n {
+        crate::checks::c15::repl_string(i)
+    } else {
+        crate::checks::c15::LONG_RUNS[(i - n) as usize].to_string()
+    }
+}
+
 fn space_for(tier: Tier) -> Space {
     let mut s = Space::new();
     match tier {
@@ -40,6 +51,7 @@ fn space_for(tier: Tier) -> Space {
             s.list("extreme counts", extreme_count_cases().len() as u64, 16);
             s.list("deep nesting", (DEEP_SHAPES.len() * DEEP_DEPTHS.len()) as u64, 1);
             s.list("escape names", escape_name_cases().len() as u64, 32);
+            s.list("replacement strings", REPL_ITEMS, 16);
         }
         Tier::Thorough => {
             s.ast("K", 5, 64).ast("Q", 3, 64).ast("CL", 3, 64).ast("G", 6, 64).ast("AN", 4, 64).ast("U", 4, 64).ast("CI", 3, 64).ast("ALT", 4, 64).ast("NEST", 6, 64).ast("GCM", 4, 64).ast("CAPQ", 6, 64).ast("BR", 5, 64);
@@ -52,6 +64,7 @@ fn space_for(tier: Tier) -> Space {
             s.list("extreme counts", extreme_count_cases().len() as u64, 16);
             s.list("deep nesting", (DEEP_SHAPES.len() * DEEP_DEPTHS.len()) as u64, 1);
             s.list("escape names", escape_name_cases().len() as u64, 32);
+            s.list("replacement strings", REPL_ITEMS, 16);
         }
     }
     s
@@ -406,6 +419,38 @@ impl Check for Crash {
                         }
                     }
                     j.out.sample(J::obj(vec![("pattern", J::s(text))]));
+                }
+            }
+            SegKind::List { name: "replacement strings" } => {
+                // C15 leaves a crash inside replace_all to this check: patterns with 0, 1, 2, 9, 10,
+                // 12 and 100 groups (one- and multi-digit group references), with and without a match
+                let hundred: String = (0..100).map(|_| "(a)").collect();
+                let pats: Vec<(String, String)> = vec![
+                    ("a".to_string(), "-a-".to_string()),
+                    ("(a)".to_string(), "-a-".to_string()),
+                    ("(a)|(b)".to_string(), "ab".to_string()),
+                    ("(a)(b)(c)(d)(e)(f)(g)(h)(i)".to_string(), "-abcdefghi-".to_string()),
+                    ("(a)(b)(c)(d)(e)(f)(g)(h)(i)(j)".to_string(), "-abcdefghij-".to_string()),
+                    ("(a)(b)(c)(d)(e)(f)(g)(h)(i)(j)(k)(l)".to_string(), "abcdefghijklabcdefghijkl".to_string()),
+                    (hundred, "a".repeat(100)),
+                ];
+                for i in lo..hi {
+                    let r = repl_item(i);
+                    for (text, hit) in &pats {
+                        for (flags, xsd) in [("", false), ("i", false), ("", true)] {
+                            let c = imp::compile(text, flags, xsd);
+                            j.obs(&Case::new(&scope_name, text, flags).xsd(xsd).api("compile"), &c, &[EK::Syntax, EK::InvalidFlags]);
+                            if let Out::Ok(re) = c {
+                                j.out.inc("nontrivial");
+                                for inp in ["", "zz", hit.as_str()] {
+                                    j.out.pin(&|| format!("{} {:?} input {:?} replacement {:?}", scope_name, text, inp, r));
+                                    let o = imp::replace_all(&re, inp, &r);
+                                    j.obs(&Case::new(&scope_name, text, flags).xsd(xsd).input(inp).repl(&r).api("replace_all"), &o, &[EK::MatchesEmptyString, EK::InvalidReplacementString]);
+                                }
+                            }
+                        }
+                    }
+                    j.out.sample(J::obj(vec![("replacement", J::s(&r))]));
                 }
             }
             SegKind::List { name: "triggers" } => {
